@@ -13,7 +13,6 @@ import (
 
 	"github.com/thomasjungblut/go-sstables/recordio"
 	rProto "github.com/thomasjungblut/go-sstables/recordio/proto"
-	"github.com/thomasjungblut/go-sstables/skiplist"
 	"github.com/thomasjungblut/go-sstables/sstables"
 	"google.golang.org/protobuf/proto"
 	"verifsim/simrt"
@@ -40,6 +39,7 @@ type wsCase struct {
 	IndexComp int    `json:"index_comp"`
 	WriteBuf  int    `json:"write_buf"`
 	Ops       []wsOp `json:"ops"`
+	Cmp       int    `json:"cmp,omitempty"` // oddCmp kind: a comparator with the byte order but other magnitudes
 }
 
 var errInjected = errors.New("injected write failure")
@@ -98,6 +98,7 @@ func wsGen(r *rand.Rand, thorough bool) wsCase {
 		}
 		c.Ops = append(c.Ops, op)
 	}
+	c.Cmp = pick(r, 0, 0, 1, 2)
 	return c
 }
 
@@ -131,7 +132,7 @@ func runWSCase(c *Ctx, wc wsCase, tape *simrt.Tape) (vs []wsV, evals int, accept
 	defer w.ReleaseAll()
 	add := func(sig, detail string) { vs = append(vs, wsV{sig, detail}) }
 	wr, err := sstables.NewSSTableStreamWriter(
-		sstables.WriteBasePath(dir), sstables.WithKeyComparator(skiplist.BytesComparator{}),
+		sstables.WriteBasePath(dir), sstables.WithKeyComparator(oddCmp{wc.Cmp}),
 		sstables.DataCompressionType(wc.DataComp), sstables.IndexCompressionType(wc.IndexComp),
 		sstables.WriteBufferSizeBytes(wc.WriteBuf), sstables.BloomExpectedNumberOfElements(100))
 	if err != nil {
@@ -185,7 +186,7 @@ func runWSCase(c *Ctx, wc wsCase, tape *simrt.Tape) (vs []wsV, evals int, accept
 	}
 	accepted = len(acc)
 	// read back
-	rd, err := sstables.NewSSTableReader(sstables.ReadBasePath(dir), sstables.ReadWithKeyComparator(skiplist.BytesComparator{}))
+	rd, err := sstables.NewSSTableReader(sstables.ReadBasePath(dir), sstables.ReadWithKeyComparator(oddCmp{wc.Cmp}))
 	if err != nil {
 		add("table-unreadable|"+normErr(err), fmt.Sprintf("the closed table cannot be opened: %v (accepted %d pairs)", err, len(acc)))
 		return
